@@ -3,6 +3,7 @@ package datamodeldiagram
 import (
 	"fmt"
 	"regexp"
+	"sort"
 	"strings"
 
 	"github.com/anz-bank/sysl/pkg/cmdutils"
@@ -29,8 +30,16 @@ func GenerateDataModelsWithProjectMannerModule(datagenParams *cmdutils.CmdContex
 		return nil, fmt.Errorf("project not found in sysl")
 	}
 
-	// Iterate over each endpoint within the selected project
-	for epname, endpt := range app.GetEndpoints() {
+	// Iterate over each endpoint within the selected project, in name order: when the output name does not
+	// contain %(epname) all of them write the same entry of outmap, and the one that is kept must not depend on
+	// the iteration order of the map.
+	epnames := make([]string, 0, len(app.GetEndpoints()))
+	for epname := range app.GetEndpoints() {
+		epnames = append(epnames, epname)
+	}
+	sort.Strings(epnames)
+	for _, epname := range epnames {
+		endpt := app.GetEndpoints()[epname]
 		outputDir := datagenParams.Output
 		if strings.Contains(outputDir, "%(epname)") {
 			of := cmdutils.MakeFormatParser(datagenParams.Output)
@@ -66,7 +75,12 @@ func GenerateDataModelsWithPureModule(datagenParams *cmdutils.CmdContextParamDat
 	spclass := sequencediagram.ConstructFormatParser("", datagenParams.ClassFormat)
 
 	apps := model.GetApps()
+	appNames := make([]string, 0, len(apps))
 	for appName := range apps {
+		appNames = append(appNames, appName)
+	}
+	sort.Strings(appNames)
+	for _, appName := range appNames {
 		app := apps[appName]
 		outputDir := datagenParams.Output
 		if strings.Contains(outputDir, "%(epname)") {
